@@ -6,7 +6,8 @@ use sway_error::handler::{ErrorEmitted, Handler};
 use sway_types::Span;
 
 use crate::decl_engine::DeclEngine;
-use crate::{language::ty, language::Literal, TypeInfo};
+use crate::{language::ty, language::Literal, Engines, TypeId, TypeInfo};
+use sway_types::integer_bits::IntegerBits;
 
 use super::{patstack::PatStack, range::Range};
 
@@ -114,24 +115,57 @@ pub(crate) enum Pattern {
 
 impl Pattern {
     /// Converts a `Scrutinee` to a `Pattern`.
-    pub(crate) fn from_scrutinee(scrutinee: ty::TyScrutinee) -> Self {
+    ///
+    /// `type_id` is the type of the (part of the) matched value that the `scrutinee` is matched against.
+    pub(crate) fn from_scrutinee(
+        engines: &Engines,
+        type_id: TypeId,
+        scrutinee: ty::TyScrutinee,
+    ) -> Self {
         let pat = match scrutinee.variant {
             ty::TyScrutineeVariant::CatchAll => Pattern::Wildcard,
             ty::TyScrutineeVariant::Variable(_) => Pattern::Wildcard,
-            ty::TyScrutineeVariant::Literal(value) => Pattern::from_literal(value),
-            ty::TyScrutineeVariant::Constant(_, value, _) => Pattern::from_literal(value),
+            ty::TyScrutineeVariant::Literal(value) => {
+                Pattern::from_literal(engines, type_id, value)
+            }
+            ty::TyScrutineeVariant::Constant(_, value, _) => {
+                Pattern::from_literal(engines, type_id, value)
+            }
             ty::TyScrutineeVariant::StructScrutinee {
                 struct_ref,
                 fields,
                 instantiation_call_path: _,
             } => {
-                let mut new_fields = vec![];
+                // Two patterns of the same struct have the same constructor and their
+                // sub-patterns are compared position by position. Therefore, the fields
+                // must always be listed in the order of the struct declaration, and the
+                // fields not mentioned in the pattern (`..`) must be wildcards.
+                let struct_decl = engines.de().get_struct(&struct_ref);
+                let mut new_fields = struct_decl
+                    .fields
+                    .iter()
+                    .map(|field| (field.name.as_str().to_string(), Pattern::Wildcard))
+                    .collect::<Vec<_>>();
                 for field in fields.into_iter() {
                     let f = match field.scrutinee {
-                        Some(scrutinee) => Pattern::from_scrutinee(scrutinee),
+                        Some(scrutinee) => {
+                            let field_type_id = struct_decl
+                                .fields
+                                .iter()
+                                .find(|decl_field| decl_field.name.as_str() == field.field.as_str())
+                                .map(|decl_field| decl_field.type_argument.type_id)
+                                .unwrap_or(scrutinee.type_id);
+                            Pattern::from_scrutinee(engines, field_type_id, scrutinee)
+                        }
                         None => Pattern::Wildcard,
                     };
-                    new_fields.push((field.field.as_str().to_string(), f));
+                    match new_fields
+                        .iter_mut()
+                        .find(|(name, _)| name.as_str() == field.field.as_str())
+                    {
+                        Some((_, pattern)) => *pattern = f,
+                        None => new_fields.push((field.field.as_str().to_string(), f)),
+                    }
                 }
                 Pattern::Struct(StructPattern {
                     struct_name: struct_ref.name().to_string(),
@@ -141,14 +175,24 @@ impl Pattern {
             ty::TyScrutineeVariant::Or(elems) => {
                 let mut new_elems = PatStack::empty();
                 for elem in elems.into_iter() {
-                    new_elems.push(Pattern::from_scrutinee(elem));
+                    new_elems.push(Pattern::from_scrutinee(engines, type_id, elem));
                 }
                 Pattern::Or(new_elems)
             }
             ty::TyScrutineeVariant::Tuple(elems) => {
+                let elem_type_ids = match &*engines.te().get(type_id) {
+                    TypeInfo::Tuple(elem_types) if elem_types.len() == elems.len() => {
+                        Some(elem_types.iter().map(|x| x.type_id).collect::<Vec<_>>())
+                    }
+                    _ => None,
+                };
                 let mut new_elems = PatStack::empty();
-                for elem in elems.into_iter() {
-                    new_elems.push(Pattern::from_scrutinee(elem));
+                for (i, elem) in elems.into_iter().enumerate() {
+                    let elem_type_id = elem_type_ids
+                        .as_ref()
+                        .map(|x| x[i])
+                        .unwrap_or(elem.type_id);
+                    new_elems.push(Pattern::from_scrutinee(engines, elem_type_id, elem));
                 }
                 Pattern::Tuple(new_elems)
             }
@@ -160,14 +204,34 @@ impl Pattern {
             } => Pattern::Enum(EnumPattern {
                 enum_name: enum_ref.name().to_string(),
                 variant_name: variant.name.to_string(),
-                value: Box::new(Pattern::from_scrutinee(*value)),
+                value: Box::new(Pattern::from_scrutinee(
+                    engines,
+                    variant.type_argument.type_id,
+                    *value,
+                )),
             }),
         };
         pat
     }
 
-    /// Convert the given literal `value` into a pattern.
-    fn from_literal(value: Literal) -> Pattern {
+    /// Convert the given literal `value`, matched against a value of the type `type_id`, into a pattern.
+    fn from_literal(engines: &Engines, type_id: TypeId, value: Literal) -> Pattern {
+        // An integer literal without a suffix is a `Numeric` literal, also when it is
+        // matched against, e.g., an `u8`. All the patterns in one column of the matrix must
+        // be of the same kind (e.g., a numeric literal and a constant of type `u8`), and the
+        // missing patterns must be values of the matched type. So, we take the kind from the
+        // type of the matched value, which is the same for all the match arms.
+        let value = match (value, &*engines.te().get(type_id)) {
+            (Literal::Numeric(x), TypeInfo::UnsignedInteger(bits)) => match bits {
+                IntegerBits::Eight => u8::try_from(x).map(Literal::U8).ok(),
+                IntegerBits::Sixteen => u16::try_from(x).map(Literal::U16).ok(),
+                IntegerBits::ThirtyTwo => u32::try_from(x).map(Literal::U32).ok(),
+                IntegerBits::SixtyFour => Some(Literal::U64(x)),
+                IntegerBits::V256 => None,
+            }
+            .unwrap_or(Literal::Numeric(x)),
+            (value, _) => value,
+        };
         match value {
             Literal::U8(x) => Pattern::U8(Range::from_single(x)),
             Literal::U16(x) => Pattern::U16(Range::from_single(x)),
